@@ -60,6 +60,8 @@ def render(case, k):
             path = {"plain": path, "underlib": "lib/" + path, "libparent": "deps/lib/" + path, "libfile": path, "viadir": "d/" + path}[case.get("place", "plain")]
         has_main = i <= case["mains"]
         text = base_file(i, has_main, df, k + i, with_include=(ff == "include"))
+        if i == 1 and case.get("incmain"):
+            text = text.replace("pragma circom 2.0.0;\n", 'pragma circom 2.0.0;\ninclude "inc1.circom";\n', 1)
         if i == 2 and case.get("link"):
             text = text.replace("pragma circom 2.0.0;\n", 'pragma circom 2.0.0;\ninclude "f1.circom";\n', 1)
         f = {"path": path, "named": True, "text": text}
@@ -83,6 +85,9 @@ def render(case, k):
         if df != "none":
             faults.append("%s@%s" % (df, path))
         files.append(f)
+    if case.get("incmain"):
+        files.append({"path": "inc1.circom", "named": False,
+                      "text": "pragma circom 2.0.0;\ntemplate I1() {\n  signal input a;\n  signal output b;\n  b <== a * a;\n}\ncomponent main = I1();\n"})
     if "mains" in case["classes"]:
         faults.append("mains@-")
     expect = []
@@ -175,6 +180,11 @@ def run(tier):
     cases = list(read_ndjson(gen.cases_path))
     if tier == "thorough" and len(cases) > 30000:
         cases = rnd.sample(cases, 30000)
+    if tier == "quick" and len(cases) > 7000:
+        # every scenario with a non-default placement / link / included main, a sample of the plain ones
+        special = [c_ for c_ in cases if c_.get("place", "plain") != "plain" or c_.get("link") or c_.get("incmain")]
+        plain = [c_ for c_ in cases if not (c_.get("place", "plain") != "plain" or c_.get("link") or c_.get("incmain"))]
+        cases = special + rnd.sample(plain, max(0, min(len(plain), 7000 - len(special))))
     jobs = []
     for k, case in enumerate(cases):
         files, faults, expect = render(case, k)
@@ -254,7 +264,7 @@ def run(tier):
                    "files x {none, malformed tuple, anonymous component in expression, duplicate parameters, duplicate definition} to "
                    "their definitions x 0..2 main components (%d TLC-generated scenarios%s; fault details rotated: 4 pragma versions, "
                    "invalid UTF-8 / dangling symlink, `@` at every token position, 3 tuple and 3 anonymous shapes), each run through the "
-                   "real binary at --level warning or error; token faults: %d delete/duplicate%s mutations at every token position of a "
+                   "real binary at --level warning or error (quick tier: all scenarios with a non-default placement, link or included main component, the plain ones sampled); token faults: %d delete/duplicate%s mutations at every token position of a "
                    "base file with the pipeline's own in-process detection as oracle; non-trivial = distinct multisets of fault "
                    "classes" % (nfiles, n_scen, "" if tier == "quick" else ", sampled", len(muts), "/swap" if tier == "thorough" else ""),
            "samples": [{"scenario": jobs[1][1], "faults": jobs[1][3]}, {"scenario": jobs[len(jobs) // 2][1], "faults": jobs[len(jobs) // 2][3]},
